@@ -13,22 +13,22 @@ CHECKS = {
             'Exploration: decode(encode(v)) == v (bitwise f64, dict as multiset) and consumed == encoded length over generated values, both formats, both endians, offsets 0..15.',
             'Trusted: value bridge RVal<->zvariant::Value; generator bounds.', '7/C02'),
     'C03': ('differential PBT + role-aware mutation: zvariant D-Bus decoder vs independent strict validating unmarshaller',
-            'Exploration in both directions (false accept and false reject): valid reference encodings, 16 kinds of role-aware mutations, double mutations and random bytes; Ok <=> Accept, equal value, equal consumed length.',
+            'Exploration in both directions (false accept and false reject): valid reference encodings (incl. values nested around the 32/32/64 limits, through variants and past completed siblings), 16 kinds of role-aware mutations, double mutations and random bytes; Ok <=> Accept, equal value, equal consumed length. Thorough tier adds a coverage-guided libFuzzer campaign (target zv_dbus_diff, same oracle inside the target).',
             'Trusted: refmodel strict unmarshaller (spec rules listed in the property); duplicate dict keys and the 64 MiB array cap are not demanded.', '7/C03'),
     'C05': ('differential PBT: zvariant GVariant encoder vs independent normal-form serialiser, threshold-aimed generators',
             'Exploration: byte-for-byte comparison with a reference GVariant serialiser (checked against the examples of the GVariant specification), incl. containers aimed at the 255/256 and 65535/65536 framing-offset thresholds. Known deviations are attributed by re-running the reference with a single deviation switch.',
             'Trusted: refmodel::gv. Offsets that are not a multiple of 8 expect leading zero padding then the normal form.', '7/C05'),
     'C04': ('crash/resource fuzzing with proptest-driven structure-aware generators (mutated reference encodings, random bytes) in 4 feature configurations; counting global allocator; re-encode oracle',
-            'Exploration: no panic (catch_unwind), bounded peak allocation and panic-free re-encoding over mutated valid encodings and random bytes for 12 decode targets, both formats, in each of the four feature configurations (separate harness builds).',
+            'Exploration: no panic (catch_unwind), bounded peak allocation and panic-free re-encoding over mutated valid encodings and random bytes for 12 decode targets, both formats, in each of the four feature configurations (separate harness builds); plus wide containers (100..253 variable-sized members / elements fed byte runs and truncated serialisations around the offset-width thresholds) and GVariant framing offsets nudged beside element boundaries. Thorough tier adds a libFuzzer campaign (target zv_decode, same oracle inside the target).',
             'Trusted: catch_unwind sees every panic (panic=unwind build); allocation bound 1024*(input+signature)+64KiB only catches length-driven pre-allocation; stack overflow would abort the process (reported as exit 2 by the driver).', '7/C04'),
     'C06': ('bounded exhaustive enumeration + limit-case generation against an independent grammar recogniser',
             'Exploration, exhaustive within the stated bound: every string over the full 21-symbol alphabet up to length 5/6 and over the container alphabet up to length 7/8, plus strings at the 255-byte and 32-depth limits; accept/reject must equal the reference recogniser, and accepted strings must print, measure, hash, compare and re-parse consistently across parsed / dynamic / static representations.',
             'Trusted: refmodel::sig. At the depth limits the specification counts parentheses, libdbus also braces: strings valid under only one reading are skipped (4 per run).', '7/C06'),
     'C07': ('grid enumeration + PBT of nesting chains against a counting model',
-            'Exploration, exhaustive over the boundary grid in the thorough tier: encode and decode of container chains around every limit in 8 orders, both formats/routes/endians; success iff within 32/32/64, otherwise a MaxDepthExceeded error (or, for a variant whose own signature nests > 32, the invalid-signature rejection that C06 demands).',
+            'Exploration, exhaustive over the boundary grid in the thorough tier: encode and decode of container chains around every limit in 8 orders, both formats/routes/endians; success iff within 32/32/64, otherwise a MaxDepthExceeded error (or, for a variant whose own signature nests > 32, the invalid-signature rejection that C06 demands); plus sibling shapes: 1-2 or 31-70 completed sibling containers in front of the deep child at a generated level must neither lower nor raise the count.',
             'Trusted: refmodel marshaller/serialiser for the decode inputs; counting model: dict = one array, variant/maybe count only towards the total.', '7/C07'),
     'C08': ('algebraic-law PBT over triples of dynamic values (twins, near misses, fresh values)',
-            'Exploration: equivalence, total order, hash consistency, clone/owned twins, reported signature vs encoded signature over generated triples incl. NaN, signed zeros, fds.',
+            'Exploration: equivalence, total order, hash consistency, clone/owned twins, reported signature vs encoded signature over generated triples incl. NaN, signed zeros, fds; construction routes (a vector handed over by value / as a slice / by reference, Value::new) must give one and the same value, signature, hash and bytes.',
             'Trusted: value bridge. Known findings: NaN breaks reflexivity (keyed by a NaN-replacement classifier), owned copies of fds compare unequal.', '7/C08'),
     'C09': ('program-generating PBT: random crates of derived type definitions compiled against the library, signature / wire value predicted by the generator\'s own table, checked by an independent reference decoder',
             'Exploration over programs and inputs: each run generates a crate of ~55 type definitions (all derive kinds, nested over std types with built-in impls, each enum / dictionary kind also placed inside arrays, dictionaries, tuples and newtype variants), compiles it against the working tree and exercises every type with generated values: declared signature == table; bytes strictly valid for it, denote the predicted reference value, size agrees; decode(encode(v)) == v; decode(reference bytes) == v; Value / OwnedValue conversions round-trip with the table signature.',
@@ -37,10 +37,10 @@ CHECKS = {
             'Exploration, exhaustive within the stated bound: all strings up to 6/7 symbols over 11 character classes for 9 validated types and every construction route, plus 250..260-byte strings and UUID-like spellings; accept <=> reference grammar.',
             'Trusted: refmodel::names (written from the specification). Tolerances: org.freedesktop.DBus as unique name; PropertyName = any 1..=255-byte string (its documentation).', '7/C10'),
     'C11': ('round-trip + differential PBT: zbus message builder vs independent strict message parser',
-            'Exploration: generated type x fields x flags x endian x body (incl. fds); accessors and re-parse return what was put in; an independent parser written from the message-format chapter accepts the bytes and reads the same header, signature and body.',
+            'Exploration: generated type x fields x flags x endian x body (incl. fds); accessors and re-parse return what was put in; an independent parser written from the message-format chapter accepts the bytes and reads the same header, signature and body; the same for a message rebuilt from the header of another with a different body (Builder::from(header)).',
             'Trusted: refmodel::msg / refmodel::dbus. A body made of one struct argument reads back as that struct (documented ambiguity).', '7/C11'),
     'C12': ('crash fuzzing of the message parser with role-aware mutations of reference-built messages (proptest-driven)',
-            'Exploration: 16 mutation kinds + random bytes into Message::from_bytes; every accessor, body deserialisation, Display and Debug of accepted messages exercised under catch_unwind.',
+            'Exploration: 16 mutation kinds + random bytes into Message::from_bytes; every accessor, body deserialisation, Display and Debug of accepted messages exercised under catch_unwind. Thorough tier adds a libFuzzer campaign (target msg_parse, same oracle inside the target).',
             'Trusted: catch_unwind (panic=unwind).', '7/C12'),
     'C13': ('PBT with reference-built messages carrying unknown field codes / flag bits / types, at message level and in a stream through ReadHalf::receive_message',
             'Exploration: unknown parts must not make parsing fail, known fields/flags stay intact, and a stream keeps delivering the neighbouring messages (unknown types are skipped).',
@@ -49,7 +49,7 @@ CHECKS = {
             'Exploration over inputs and read schedules: messages come out byte-identical, in order, with their own fds and increasing positions; >128 MiB headers fail without a body-sized read.',
             'Trusted: scripted socket models a unix stream socket: a recvmsg never merges data across an fd-carrying message start.', '7/C14'),
     'C15': ('concurrency stress PBT with a cfg-guarded hook placing the serial counter at the wrap-around',
-            'Exploration (schedules are the OS scheduler\'s): 2..16 threads build messages concurrently from generated counter positions incl. across the 32-bit wrap; no zero, no repeat, per-thread progress.',
+            'Exploration (schedules are the OS scheduler\'s): 2..16 threads build messages concurrently (some interleaving builds that fail) from generated counter positions incl. across the 32-bit wrap; plus a wrap race: 8 persistent threads released together 40 000 / 2 000 000 times with the counter 0..6 draws before the wrap; no zero, no repeat, per-thread progress.',
             'Trusted: the hook only stores the counter. The interleaving cannot be owned by the harness (std atomics inside zbus), so this is stress exploration on 16 cores.', '7/C15'),
     'C21': ('differential PBT: MatchRule::matches vs the specification\'s semantics on rule-derived near-miss messages',
             'Exploration: rules over all keys x messages derived from the rule and perturbed in 0..2 aspects (prefix/sibling paths, trailing-slash arguments, other argument types, namespace boundaries, absent fields); verdicts must agree except for the two documented unresolvable-name cases.',
